@@ -5,6 +5,7 @@ package fixture
 
 import (
 	"fmt"
+	"maps"
 	"math/rand"
 	"sort"
 	"time"
@@ -41,6 +42,17 @@ func badRangeCall(t *table) {
 }
 
 func record(t *table, k int) { t.order = append(t.order, k) }
+
+func badMapsDeleteFunc(t *table) {
+	maps.DeleteFunc(t.m, func(k int, v *int) bool {
+		record(t, k) // once per entry, in hash order
+		return true
+	})
+}
+
+func okMapsDeleteFunc(t *table) {
+	maps.DeleteFunc(t.m, func(k int, v *int) bool { return k > 3 })
+}
 
 func okRangeDelete(t *table) {
 	for k := range t.m {
